@@ -33,7 +33,7 @@ Definition unique_names (v : mval) : bool := match v with MNone => true | _ => n
 Definition num_of (v : mval) : option num :=
   match v with
   | MInt z => Some (num_of_Z z)
-  | MDec m e => Some (mkNum m e)
+  | MDec m e | MFloat m e => Some (mkNum m e)
   | _ => None
   end.
 
@@ -320,6 +320,31 @@ Section V.
       nodupb deps
       && unique_names (fget "stepEnvironments" fields)
       && negb (mem_str (mstr (fget "name" fields)) deps)
+    (* ---- job-side target classes (re-validation after substitution) ---- *)
+    else if String.eqb cname "RangeExpressionTaskParameterDefinition" then
+      match RangeExpr.from_str false false classify (mstr (fget "range" fields)) with Ok _ => true | Raise _ => false end
+    else if String.eqb cname "IntRangeListTaskParameterDefinition" then
+      forallb (fun it => match parse_int (mstr it) with Some _ => true | None => false end) (mitems (fget "range" fields))
+    else if String.eqb cname "FloatRangeListTaskParameterDefinition" then
+      forallb (fun it => match parse_dec (mstr it) with Some (Fin _ _) => true | _ => false end) (mitems (fget "range" fields))
+    else if String.eqb cname "StepParameterSpace" then
+      match fget "combination" fields with
+      | MStr s =>
+        let lens :=
+          flat_map (fun kv =>
+                      match fget "range" (model_fields (snd kv)) with
+                      | MList items => [(fst kv, N.of_nat (List.length items))]
+                      | MFmt r | MStr r =>
+                        match RangeExpr.from_str false false classify r with
+                        | Ok e => [(fst kv, Z.to_N (RangeExpr.elen e))]
+                        | Raise _ => []
+                        end
+                      | _ => []
+                      end)
+                   (match fget "taskParameterDefinitions" fields with MDict l => l | _ => [] end) in
+        match Comb.dims_str classify (Comb.lookup_len lens) s with Ok _ => true | Raise _ => false end
+      | _ => true
+      end
     else if String.eqb cname "JobTemplate" then job_template_ok raw fields
     else if String.eqb cname "EnvironmentTemplate" then
       unique_names (fget "parameterDefinitions" fields)
